@@ -139,6 +139,22 @@ static void un_core(uint64_t h) {
             else if (pos < 0) want(e, E_DOMAIN, 1, what);
             CALL(childPosToCell(pos * 1048576 + 1, h, r, &o), "childPosToCell");
         }
+        // positions at and just beyond the announced child count: E_DOMAIN is documented for every position outside 0..size-1
+        if (valid && !rbad && r >= res && !CALL(cellToChildrenSize(h, r, &i64), "cellToChildrenSize")) {
+            int64_t size = i64, full = 1;
+            for (int q = res; q < r; q++) full *= 7;
+            int64_t ps[] = {size, size + 1, (size + full) / 2, full - 1, full, full + 1, -1};
+            for (unsigned q = 0; q < sizeof ps / sizeof *ps; q++) {
+                if (ps[q] >= 0 && ps[q] < size) continue;
+                e = CALL(childPosToCell(ps[q], h, r, &o), "childPosToCell");
+                snprintf(what, sizeof what, "childPosToCell(%" PRId64 ",%" PRIx64 ",%d) [child count %" PRId64 "]", ps[q], h, r, size);
+                want(e, E_DOMAIN, 1, what);
+            }
+            if (size > 0) {
+                e = CALL(childPosToCell(size - 1, h, r, &o), "childPosToCell");
+                if (e) mc_fail("childPosToCell(%" PRId64 ",%" PRIx64 ",%d) (last valid position) returned %u", size - 1, h, r, e);
+            }
+        }
         // r as k
         int64_t sz = -1;
         e = CALL(maxGridDiskSize(r, &sz), "maxGridDiskSize");
